@@ -219,8 +219,32 @@ def r3_r4_structure(ctx):
             ctx.check("R4", qn + "|difference-arguments", True if (s0 in (1, -1) and s0 == s1) else (False if s0 is not None and s1 is not None else None),
                       "kernel arguments are coordinate differences with the same sign on both axes", bad="opposite signs on the two axes", fn=qn)
             ctx.check("R3", qn + "|mindist-forwarded", True if len(g[2]) > 2 and g[2][2] == ("param", "mindist") else None, "mindist reaches the kernel", fn=qn)
+        why = "the Jacobian is filled transposed (forces along rows)"
+        if ok is None and st:
+            # stores with explicit index arrays: jac[I, J] = G(east[A] - force_east[B], ...) must have A == I (observation = row) and B == J
+            # (force = column) in every store; a store that mirrors entries (jac[J, I] = the same values) assumes a symmetry the matrix has
+            # only when the forces sit on the data points in the same order
+            verdicts = []
+            for e in st:
+                ix, val = e.data[1], e.data[2]
+                if not (ix[0] == "tuple" and len(ix[1]) == 2 and g_call(val, {"verde.spline.greens_func_numpy"})):
+                    verdicts.append(None)
+                    continue
+                i_, j_ = ix[1]
+                a0 = val[2][0]
+                obs = [x[2] for x in walk(a0) if isinstance(x, tuple) and x and x[0] == "sub" and x[1] == ("param", "east")]
+                frc = [x[2] for x in walk(a0) if isinstance(x, tuple) and x and x[0] == "sub" and x[1] == ("param", "force_east")]
+                if len(obs) == 1 and len(frc) == 1:
+                    good = obs[0] == i_ and frc[0] == j_
+                    verdicts.append(True if good else (False if obs[0] == j_ and frc[0] == i_ and i_ != j_ else None))
+                else:
+                    verdicts.append(None)
+            if any(v is False for v in verdicts):
+                ok, why = False, "a store puts G(obs[r] - force[c]) into entry [c, r]: the Jacobian is assumed symmetric, which holds only when every force sits on the data point of the same index"
+            elif verdicts and all(v is True for v in verdicts):
+                ok = None       # each store is right; whether together they cover the matrix is not decided here
         ctx.check("R3", qn + "|observations-along-rows", ok, "jac[:] = G(obs as a column - forces as a row): observations along rows, forces along columns",
-                  bad="the Jacobian is filled transposed (forces along rows)", fn=qn)
+                  bad=why, fn=qn)
     qn = "verde.spline.jacobian_numba"
     for p in ctx.paths(qn):
         if p.exit != "return":
